@@ -117,6 +117,8 @@ def has_sym(x, depth=0) -> bool:
     """does a (possibly nested) Python value contain symbolic parts?"""
     if isinstance(x, (S, A, T, Shape)):
         return True
+    if type(x).__name__ == "EA" and getattr(x, "__nss_symbolic__", False):
+        return True
     if depth > 4:
         return False
     if isinstance(x, (list, tuple, set, frozenset)):
@@ -1282,3 +1284,186 @@ class StarSeq:
 
     def __init__(self, seq):
         self.seq = seq
+
+
+# --------------------------------------------------------------------------------------
+# EA: arrays of concrete shape whose elements are symbolic scalars (small-scope exhaustive mode)
+# --------------------------------------------------------------------------------------
+
+import operator as _op
+
+
+def _obj(x):
+    a = np.empty(np.shape(x), dtype=object)
+    a[...] = x
+    return a
+
+
+class EA:
+    """numpy array of concrete shape with symbolic (S) elements.  Views, slicing, broadcasting and
+    fancy indexing are numpy's own (object dtype); elementwise operators act on the S elements;
+    anything that needs the truth value of an element (np.where, boolean-mask indexing) is done by
+    the interpreter, which forks on it."""
+
+    __nss_symbolic__ = True
+    __array_ufunc__ = None
+
+    def __init__(self, a):
+        self.a = a if isinstance(a, np.ndarray) and a.dtype == object else _obj(a)
+
+    @staticmethod
+    def symbols(name, shape, **assump):
+        assump.setdefault("real", True)
+        a = np.empty(shape, dtype=object)
+        for idx in np.ndindex(*shape):
+            a[idx] = S(sp.Symbol(name + "_" + "_".join(map(str, idx)), **assump))
+        return EA(a)
+
+    @property
+    def shape(self):
+        return self.a.shape
+
+    @property
+    def ndim(self):
+        return self.a.ndim
+
+    @property
+    def size(self):
+        return self.a.size
+
+    @property
+    def T(self):
+        return EA(self.a.T)
+
+    @property
+    def dtype(self):
+        return np.dtype(object)
+
+    def __len__(self):
+        return len(self.a)
+
+    def copy(self):
+        return EA(self.a.copy())
+
+    def astype(self, *a, **k):
+        return EA(self.a.copy())
+
+    def _other(self, o):
+        if isinstance(o, EA):
+            return o.a
+        if isinstance(o, (A, Dep)):
+            raise Unsupported("explicit array combined with a generic-element array")
+        return o
+
+    def _ew(self, o, f, swap=False):
+        b = self._other(o)
+        g = (lambda x, y: f(y, x)) if swap else f
+        r = np.frompyfunc(lambda x, y: _lift_s(g(_lift_s(x), _lift_s(y))), 2, 1)(self.a, b)
+        return EA(r) if isinstance(r, np.ndarray) else EA(_obj(r))
+
+    def __add__(self, o):
+        return self._ew(o, _op.add)
+
+    def __radd__(self, o):
+        return self._ew(o, _op.add, True)
+
+    def __sub__(self, o):
+        return self._ew(o, _op.sub)
+
+    def __rsub__(self, o):
+        return self._ew(o, _op.sub, True)
+
+    def __mul__(self, o):
+        return self._ew(o, _op.mul)
+
+    def __rmul__(self, o):
+        return self._ew(o, _op.mul, True)
+
+    def __truediv__(self, o):
+        return self._ew(o, _op.truediv)
+
+    def __rtruediv__(self, o):
+        return self._ew(o, _op.truediv, True)
+
+    def __pow__(self, o):
+        return self._ew(o, _op.pow)
+
+    def __neg__(self):
+        return EA(np.frompyfunc(lambda x: -_lift_s(x), 1, 1)(self.a))
+
+    def __lt__(self, o):
+        return self._ew(o, _op.lt)
+
+    def __le__(self, o):
+        return self._ew(o, _op.le)
+
+    def __gt__(self, o):
+        return self._ew(o, _op.gt)
+
+    def __ge__(self, o):
+        return self._ew(o, _op.ge)
+
+    def __eq__(self, o):  # noqa
+        return self._ew(o, _op.eq)
+
+    def __ne__(self, o):  # noqa
+        return self._ew(o, _op.ne)
+
+    __hash__ = object.__hash__
+
+    def __and__(self, o):
+        return self._ew(o, _op.and_)
+
+    __rand__ = __and__
+
+    def __or__(self, o):
+        return self._ew(o, _op.or_)
+
+    __ror__ = __or__
+
+    def __xor__(self, o):
+        return self._ew(o, _op.xor)
+
+    __rxor__ = __xor__
+
+    def __invert__(self):
+        return EA(np.frompyfunc(lambda x: ~_lift_s(x), 1, 1)(self.a))
+
+    def __getitem__(self, idx):
+        if isinstance(idx, EA):
+            raise Unsupported("explicit array indexed by a symbolic array must go through the interpreter")
+        r = self.a[idx]
+        if isinstance(r, np.ndarray):
+            return EA(r)
+        return r
+
+    def __setitem__(self, idx, v):
+        if isinstance(idx, EA):
+            raise Unsupported("store through a symbolic mask must go through the interpreter")
+        if isinstance(v, EA):
+            v = v.a
+        elif isinstance(v, (bool, int, float, np.generic)):
+            v = S(rat(v))
+        self.a[idx] = v
+        Hooks.effect("store", self, "[explicit]")
+
+    def __bool__(self):
+        raise Unsupported("truth value of a symbolic array")
+
+    def __iter__(self):
+        for k in range(len(self.a)):
+            r = self.a[k]
+            yield EA(r) if isinstance(r, np.ndarray) else r
+
+    def __repr__(self):
+        return "EA(%s)" % (self.a,)
+
+
+def _lift_s(x):
+    if isinstance(x, S):
+        return x
+    if isinstance(x, (bool, np.bool_)):
+        return S(sp.true if x else sp.false)
+    if isinstance(x, (int, float, np.integer, np.floating)):
+        return S(rat(x))
+    return x
